@@ -968,3 +968,19 @@ package geom
 //@   ensures res2 == nil ==> res1 == g && wf3(g) && len(g.endss) == len(coords)
 //@   ensures g.layout == old(g.layout) && g.stride == old(g.stride) && g.srid == old(g.srid)
 //@   modifies *g
+
+// ---------------------------------------------------------------------------
+// C07 / C08: Bounds.Set stores min and max ordinates (an even number of arguments)
+
+//@ func Bounds.Set
+//@   floats real
+//@   requires Binv(b) && Brange(b) && strideOf(b.layout) >= 0 && base(args) != base(b.min) && base(args) != base(b.max)
+//@   panics when len(args) % 2 != 0
+//@   ensures res == b && b.layout == old(b.layout) && len(b.min) >= len(args) / 2 && len(b.max) == len(b.min) && len(b.min) >= old(len(b.min))
+//@   ensures forall i int :: 0 <= i && 2 * i + 1 < len(args) ==> b.min[i] == args[i] && b.max[i] == args[i + len(args) / 2]
+//@   modifies *b, b.min[0:cap(b.min)], b.max[0:cap(b.max)]
+//@   loop 1:
+//@     invariant 2 * stride == len(args) && b.layout == old(b.layout) && len(b.min) >= stride && len(b.max) == len(b.min) && len(b.min) >= old(len(b.min)) && (base(b.min) != base(b.max) || (cap(b.min) == 0 && cap(b.max) == 0)) && base(args) != base(b.min) && base(args) != base(b.max)
+//@     invariant fresh(b.min) || (base(b.min) == old(base(b.min)) && off(b.min) == old(off(b.min)) && cap(b.min) == old(cap(b.min)))
+//@     invariant fresh(b.max) || (base(b.max) == old(base(b.max)) && off(b.max) == old(off(b.max)) && cap(b.max) == old(cap(b.max)))
+//@     invariant forall i int :: 0 <= i && i < idx ==> b.min[i] == args[i] && b.max[i] == args[i + stride]
